@@ -369,6 +369,17 @@ func (mw *msgWriter) addFiles(files []*File, isAttachment bool) {
 				file.setHeader(HeaderContentID, fmt.Sprintf("<%s>", sanitizeFilename(file.Name)))
 			}
 		}
+		if contentID, ok := file.getHeader(HeaderContentID); ok {
+			// A user provided Content-ID is written into the header section verbatim. Control
+			// characters like CR/LF would end the header line, therefore they are replaced.
+			sanitized := []byte(contentID)
+			for i := range sanitized {
+				if sanitized[i] < 32 || sanitized[i] == 127 {
+					sanitized[i] = '_'
+				}
+			}
+			file.setHeader(HeaderContentID, string(sanitized))
+		}
 		if mw.depth == 0 {
 			headers := make([]string, 0, len(file.Header))
 			for header := range file.Header {
